@@ -257,8 +257,8 @@ def run_shard(rec):
     quick = rec.tier == "quick"
     if rec.shard == 0:
         run_cases(rec, "regression", REGRESSION, lambda c: check(c, rec))
-    hyp_run(rec, "cells", cases(20000 if quick else 120000), lambda c: check(c, rec),
-            max_examples=130 if quick else 1200)
+    hyp_run(rec, "cells", cases(20000 if quick else 50000), lambda c: check(c, rec),
+            max_examples=130 if quick else 450)
 
 
 def replay(sub, case, rec):
